@@ -24,6 +24,43 @@ def op_tbb(cpu, n, m, is_tbh):
     cpu.cases([(is_tbh, tbh), (True, tbb)])
 
 
+def excl_value(cpu, t, t2, size):
+    if size == 8:
+        lo, hi = cpu.R(t), cpu.R(t2)
+        be = bit(cpu.cpsr, 9) == 1
+        return ite(be, (lo << 32) | hi, (hi << 32) | lo)
+    return cpu.R(t) & ((1 << (8 * size)) - 1)
+
+
+def op_ldrex(cpu, t, n, imm, size, t2=None):
+    """LDREX{B,H,D}: SetExclusiveMonitors(address, size) (translation only; the monitors are outside the machine state);
+    R[t] = MemA[address, size]"""
+    address = (cpu.R(n) + imm) & M32
+    if size == 8:
+        cpu.UNDEFINED(bits(address, 2, 0) != 0)          # alignment fault instead of normal execution
+        d = mem_read(cpu, 'A', address, 8)
+        be = bit(cpu.cpsr, 9) == 1
+        cpu.setR(t, ite(be, bits(d, 63, 32), bits(d, 31, 0)))
+        cpu.setR(t2, ite(be, bits(d, 31, 0), bits(d, 63, 32)))
+    else:
+        cpu.setR(t, mem_read(cpu, 'A', address, size))
+
+
+def op_strex(cpu, d, t, n, imm, size, t2=None):
+    """STREX{B,H,D}: if ExclusiveMonitorsPass(address, size) then MemA[address, size] = R[t]; R[d] = 0 else R[d] = 1.
+    The outcome of the monitors is an oracle of the unit (cpu.st['oracle.excl_pass'])."""
+    address = (cpu.R(n) + imm) & M32
+    cpu.UNDEFINED((address & (size - 1)) != 0)           # ExclusiveMonitorsPass: alignment fault
+    value = excl_value(cpu, t, t2, size)
+    ok = cpu.st['oracle.excl_pass']
+
+    def passed(k):
+        from .ops_ls import mem_write
+        mem_write(k, 'A', address, size, value)
+        k.setR(d, 0)
+    cpu.cases([(ok, passed), (True, lambda k: k.setR(d, 1))])
+
+
 def build(T):
     C = 'cond:4'
     nu = lambda f: f['cond'] != 15
@@ -60,6 +97,37 @@ def build(T):
     # ---- table branch
     T.add('TbbTbhT1', 't32', '11101 000 1101 Rn:4 (1111) (0000) 000 H Rm:4', lambda cpu, f: op_tbb(cpu, f['Rn'], f['Rm'], f['H'] == 1),
           family='C04', unpred=lambda f, c: lor(f['Rn'] == 13, badreg(f['Rm'])))
+    # ---- exclusives (A8.8.75-78, A8.8.212-215)
+    ex_up = lambda *names: (lambda f, c: lor(*[f[n] == 15 for n in names]))
+    E = lambda cls, iset, pat, op, **kw: T.add(cls, iset, pat, op, family='C02', **kw)
+    E('LdrexA1', 'arm', '%s 0001 1001 Rn:4 Rt:4 (1111) 1001 (1111)' % C, lambda c, f: op_ldrex(c, f['Rt'], f['Rn'], 0, 4), when=nu, unpred=ex_up('Rt', 'Rn'))
+    E('LdrexbA1', 'arm', '%s 0001 1101 Rn:4 Rt:4 (1111) 1001 (1111)' % C, lambda c, f: op_ldrex(c, f['Rt'], f['Rn'], 0, 1), when=nu, unpred=ex_up('Rt', 'Rn'))
+    E('LdrexhA1', 'arm', '%s 0001 1111 Rn:4 Rt:4 (1111) 1001 (1111)' % C, lambda c, f: op_ldrex(c, f['Rt'], f['Rn'], 0, 2), when=nu, unpred=ex_up('Rt', 'Rn'))
+    E('LdrexdA1', 'arm', '%s 0001 1011 Rn:4 Rt:4 (1111) 1001 (1111)' % C, lambda c, f: op_ldrex(c, f['Rt'], f['Rn'], 0, 8, f['Rt'] + 1), when=nu,
+      unpred=lambda f, c: lor(bit(f['Rt'], 0) == 1, f['Rt'] == 14, f['Rn'] == 15))
+    st_up = lambda f, c: lor(f['Rd'] == 15, f['Rt'] == 15, f['Rn'] == 15, f['Rd'] == f['Rn'], f['Rd'] == f['Rt'])
+    E('StrexA1', 'arm', '%s 0001 1000 Rn:4 Rd:4 (1111) 1001 Rt:4' % C, lambda c, f: op_strex(c, f['Rd'], f['Rt'], f['Rn'], 0, 4), when=nu, unpred=st_up)
+    E('StrexbA1', 'arm', '%s 0001 1100 Rn:4 Rd:4 (1111) 1001 Rt:4' % C, lambda c, f: op_strex(c, f['Rd'], f['Rt'], f['Rn'], 0, 1), when=nu, unpred=st_up)
+    E('StrexhA1', 'arm', '%s 0001 1110 Rn:4 Rd:4 (1111) 1001 Rt:4' % C, lambda c, f: op_strex(c, f['Rd'], f['Rt'], f['Rn'], 0, 2), when=nu, unpred=st_up)
+    E('StrexdA1', 'arm', '%s 0001 1010 Rn:4 Rd:4 (1111) 1001 Rt:4' % C, lambda c, f: op_strex(c, f['Rd'], f['Rt'], f['Rn'], 0, 8, f['Rt'] + 1), when=nu,
+      unpred=lambda f, c: lor(f['Rd'] == 15, bit(f['Rt'], 0) == 1, f['Rt'] == 14, f['Rn'] == 15, f['Rd'] == f['Rn'], f['Rd'] == f['Rt'],
+                              f['Rd'] == f['Rt'] + 1))
+    E('LdrexT1', 't32', '11101 000 0101 Rn:4 Rt:4 (1111) imm8:8', lambda c, f: op_ldrex(c, f['Rt'], f['Rn'], f['imm8'] << 2, 4),
+      unpred=lambda f, c: lor(badreg(f['Rt']), f['Rn'] == 15))
+    E('StrexT1', 't32', '11101 000 0100 Rn:4 Rt:4 Rd:4 imm8:8', lambda c, f: op_strex(c, f['Rd'], f['Rt'], f['Rn'], f['imm8'] << 2, 4),
+      unpred=lambda f, c: lor(badreg(f['Rd']), badreg(f['Rt']), f['Rn'] == 15, f['Rd'] == f['Rn'], f['Rd'] == f['Rt']))
+    E('LdrexbT1', 't32', '11101 000 1101 Rn:4 Rt:4 (1111) 0100 (1111)', lambda c, f: op_ldrex(c, f['Rt'], f['Rn'], 0, 1),
+      unpred=lambda f, c: lor(badreg(f['Rt']), f['Rn'] == 15))
+    E('LdrexhT1', 't32', '11101 000 1101 Rn:4 Rt:4 (1111) 0101 (1111)', lambda c, f: op_ldrex(c, f['Rt'], f['Rn'], 0, 2),
+      unpred=lambda f, c: lor(badreg(f['Rt']), f['Rn'] == 15))
+    E('LdrexdT1', 't32', '11101 000 1101 Rn:4 Rt:4 Rt2:4 0111 (1111)', lambda c, f: op_ldrex(c, f['Rt'], f['Rn'], 0, 8, f['Rt2']),
+      unpred=lambda f, c: lor(badreg(f['Rt']), badreg(f['Rt2']), f['Rt'] == f['Rt2'], f['Rn'] == 15))
+    sx_up = lambda f, c: lor(badreg(f['Rd']), badreg(f['Rt']), f['Rn'] == 15, f['Rd'] == f['Rn'], f['Rd'] == f['Rt'])
+    E('StrexbT1', 't32', '11101 000 1100 Rn:4 Rt:4 (1111) 0100 Rd:4', lambda c, f: op_strex(c, f['Rd'], f['Rt'], f['Rn'], 0, 1), unpred=sx_up)
+    E('StrexhT1', 't32', '11101 000 1100 Rn:4 Rt:4 (1111) 0101 Rd:4', lambda c, f: op_strex(c, f['Rd'], f['Rt'], f['Rn'], 0, 2), unpred=sx_up)
+    E('StrexdT1', 't32', '11101 000 1100 Rn:4 Rt:4 Rt2:4 0111 Rd:4', lambda c, f: op_strex(c, f['Rd'], f['Rt'], f['Rn'], 0, 8, f['Rt2']),
+      unpred=lambda f, c: lor(badreg(f['Rd']), badreg(f['Rt']), badreg(f['Rt2']), f['Rn'] == 15, f['Rd'] == f['Rn'], f['Rd'] == f['Rt'],
+                              f['Rd'] == f['Rt2']))
     # ---- decode-only rows ------------------------------------------------------------------------------------
     def arm(cls, pat, **kw):
         return T.add(cls, 'arm', pat, None, **kw)
@@ -82,19 +150,6 @@ def build(T):
     arm('PldLiteralA1', '1111 0101 U (1) 01 1111 (1111) imm12:12', family='C02')
     arm('PldRegisterA1', '1111 0111 U R 01 Rn:4 (1111) imm5:5 type:2 0 Rm:4', family='C02',
         unpred=lambda f, c: lor(f['Rm'] == 15, land(f['Rn'] == 15, f['R'] == 0)))
-    ex_up = lambda *names: (lambda f, c: lor(*[f[n] == 15 for n in names]))
-    arm('LdrexA1', '%s 0001 1001 Rn:4 Rt:4 (1111) 1001 (1111)' % C, when=nu, unpred=ex_up('Rt', 'Rn'), family='C02')
-    arm('LdrexbA1', '%s 0001 1101 Rn:4 Rt:4 (1111) 1001 (1111)' % C, when=nu, unpred=ex_up('Rt', 'Rn'), family='C02')
-    arm('LdrexhA1', '%s 0001 1111 Rn:4 Rt:4 (1111) 1001 (1111)' % C, when=nu, unpred=ex_up('Rt', 'Rn'), family='C02')
-    arm('LdrexdA1', '%s 0001 1011 Rn:4 Rt:4 (1111) 1001 (1111)' % C, when=nu, family='C02',
-        unpred=lambda f, c: lor(bit(f['Rt'], 0) == 1, f['Rt'] == 14, f['Rn'] == 15))
-    st_up = lambda f, c: lor(f['Rd'] == 15, f['Rt'] == 15, f['Rn'] == 15, f['Rd'] == f['Rn'], f['Rd'] == f['Rt'])
-    arm('StrexA1', '%s 0001 1000 Rn:4 Rd:4 (1111) 1001 Rt:4' % C, when=nu, unpred=st_up, family='C02')
-    arm('StrexbA1', '%s 0001 1100 Rn:4 Rd:4 (1111) 1001 Rt:4' % C, when=nu, unpred=st_up, family='C02')
-    arm('StrexhA1', '%s 0001 1110 Rn:4 Rd:4 (1111) 1001 Rt:4' % C, when=nu, unpred=st_up, family='C02')
-    arm('StrexdA1', '%s 0001 1010 Rn:4 Rd:4 (1111) 1001 Rt:4' % C, when=nu, family='C02',
-        unpred=lambda f, c: lor(f['Rd'] == 15, bit(f['Rt'], 0) == 1, f['Rt'] == 14, f['Rn'] == 15, f['Rd'] == f['Rn'], f['Rd'] == f['Rt'],
-                                f['Rd'] == f['Rt'] + 1))
     t16('SvcT1', '1101 1111 imm8:8', family='C12')
     t16('UdfT1', '1101 1110 imm8:8', family='C12')
     t16('BkptT1', '1011 1110 imm8:8', family='C12')
@@ -109,20 +164,6 @@ def build(T):
     t32('ClrexT1', '11110 0 111 01 1 (1111) 10 (0) 0 (1111) 0010 (1111)', family='C02')
     t32('DsbT1', '11110 0 111 01 1 (1111) 10 (0) 0 (1111) 0100 option:4', family='C12')
     t32('IsbT1', '11110 0 111 01 1 (1111) 10 (0) 0 (1111) 0110 option:4', family='C12')
-    tb = lambda *names: (lambda f, c: lor(*[badreg(f[n]) for n in names]))
-    t32('LdrexT1', '11101 000 0101 Rn:4 Rt:4 (1111) imm8:8', unpred=lambda f, c: lor(badreg(f['Rt']), f['Rn'] == 15), family='C02')
-    t32('StrexT1', '11101 000 0100 Rn:4 Rt:4 Rd:4 imm8:8', family='C02',
-        unpred=lambda f, c: lor(badreg(f['Rd']), badreg(f['Rt']), f['Rn'] == 15, f['Rd'] == f['Rn'], f['Rd'] == f['Rt']))
-    t32('LdrexbT1', '11101 000 1101 Rn:4 Rt:4 (1111) 0100 (1111)', unpred=lambda f, c: lor(badreg(f['Rt']), f['Rn'] == 15), family='C02')
-    t32('LdrexhT1', '11101 000 1101 Rn:4 Rt:4 (1111) 0101 (1111)', unpred=lambda f, c: lor(badreg(f['Rt']), f['Rn'] == 15), family='C02')
-    t32('LdrexdT1', '11101 000 1101 Rn:4 Rt:4 Rt2:4 0111 (1111)', family='C02',
-        unpred=lambda f, c: lor(badreg(f['Rt']), badreg(f['Rt2']), f['Rt'] == f['Rt2'], f['Rn'] == 15))
-    sx_up = lambda f, c: lor(badreg(f['Rd']), badreg(f['Rt']), f['Rn'] == 15, f['Rd'] == f['Rn'], f['Rd'] == f['Rt'])
-    t32('StrexbT1', '11101 000 1100 Rn:4 Rt:4 (1111) 0100 Rd:4', unpred=sx_up, family='C02')
-    t32('StrexhT1', '11101 000 1100 Rn:4 Rt:4 (1111) 0101 Rd:4', unpred=sx_up, family='C02')
-    t32('StrexdT1', '11101 000 1100 Rn:4 Rt:4 Rt2:4 0111 Rd:4', family='C02',
-        unpred=lambda f, c: lor(badreg(f['Rd']), badreg(f['Rt']), badreg(f['Rt2']), f['Rn'] == 15, f['Rd'] == f['Rn'], f['Rd'] == f['Rt'],
-                                f['Rd'] == f['Rt2']))
     # ---- coprocessor instructions (generic coprocessors; coproc 101x is the Floating-point / Advanced SIMD space): decode-only
     not_fp = lambda f: bits(f['coproc'], 3, 1) != 0b101
     COP = [('StcStc2', '110 P U D W 0 Rn:4 CRd:4 coproc:4 imm8:8', lambda f: lnot(land(f['P'] == 0, f['U'] == 0, f['W'] == 0)), 'stc'),
